@@ -10,14 +10,16 @@ G: every transition is printed as a program with the level-A prediction after ev
    the harness (vh_span/c04_span) runs each program on the real crate - every span node
    through a real macro expansion (#[emit::span] sync/async fn, with guard: and complete() /
    complete_with(), with ok_lvl: / err_lvl: on Ok and Err results, new_span!, SpanGuard::new,
-   guards finished by drop / complete / complete_with) on a Runtime with recording emitter, scripted filter,
+   guards finished by drop / complete / complete_with, real panics unwinding through sync
+   span bodies and async polls; incoming ids typed / &str hex / integer / SpanCtxt / Display-
+   captured hex / owned String / owned typed value) on a Runtime with recording emitter, scripted filter,
    ThreadLocalCtxt, counter clock and counter rng - and compares, after every step, the
    records that reached the emitter (kind, trace_id, span_id, span_parent) and
    SpanCtxt::current on every thread with the prediction, ids up to a bijection.
 """
 from checks import span_common
 
-ACTIONS = ["Begin", "New", "SEnter", "End", "SExit", "Event", "Current"]
+ACTIONS = ["Begin", "New", "SEnter", "End", "SExit", "Event", "Current", "SPanic"]
 TASKS = ["SSpawn", "SPoll", "SYield", "SComplete"]
 LAZY = ["Lazy", "PollLazy"]
 
@@ -43,7 +45,7 @@ def run(ctx):
     ctx.assumptions += [
         "the random source yields no zero and no repeat (the statement's condition); ids are compared up to a bijection, so the draw order is free",
         "span guards are moved into the closure / async block of their frame, as the documentation of SpanGuard::new requires",
-        "no panics inside spans (unwinding through frames is C03, completion on panic is C05); no root frames between spans",
+        "a panic is caught below everything the thread has entered (one catch level per thread); the level / error of the record a span emits while unwinding is C05's; no root frames between spans",
         "incoming ids are pushed outside any span (at the edge of the service): trace id + span id, a trace id alone (spans join it, no parent), a span id alone (spans take it as parent and start their own trace)",
         "a rejected span's frame carries the ids that were ambient where the span was created (snapshot), which is what 'children attach to the nearest enabled ancestor' needs after a hand-off",
         "bounds: see coverage.tlc_runs[*].constants",
